@@ -28,7 +28,7 @@ def shards(tier):
 def check_case(run, fcp, sch, name, v, text, sig=None):
     from fcp import serde
 
-    case = {"schema": text, "struct": name, "value": v, "description": sch.decls}
+    case = {"schema": text, "struct": name, "value": v, "description": sch.decls, "shared_subobjects": CC.shares_objects(v)}
     want = ref.encode(sch, name, v)
     case["canonical"] = want
     import copy as _copy
@@ -107,6 +107,12 @@ def run(run):
             if ci % 5 == 2:
                 CC.provoke_faults(run, fcp, sch, name, v, ci)
             check_case(run, fcp, sch, name, v, text, sig)
+            if ci % 4 == 1:
+                # the same value with its equal sub-values being one shared object (no cycle)
+                sv = CC.intern_equal(v)
+                if CC.shares_objects(sv):
+                    check_case(run, fcp, sch, name, sv, text, sig + "|shared-subobjects")
+                    run.count("values_with_shared_subobjects")
         del fcp, res
     CC.address_reuse_history(run, lambda fcp, sch, name, v, text, sig: check_case(run, fcp, sch, name, v, text, sig), run.pick(120, 1200))
     CC.edited_schema_history(run, lambda fcp, sch, name, v, text, sig: check_case(run, fcp, sch, name, v, text, sig), run.pick(20, 200))
@@ -123,4 +129,4 @@ def replay(run, case):
     if res.is_err():
         run.violation("front end rejected the schema: %r" % (res.err(),), case)
         return
-    check_case(run, res.unwrap(), S.Sch(case["description"]), case["struct"], case["value"], case["schema"])
+    check_case(run, res.unwrap(), S.Sch(case["description"]), case["struct"], CC.intern_equal(case["value"]) if case.get("shared_subobjects") else case["value"], case["schema"])
